@@ -505,6 +505,13 @@ func (e *Engine) stmts(fr *frame, st *State, ss []ast.Stmt, k func(st *State)) {
 		k(st)
 		return
 	}
+	// a fault in (or below) an activation that has installed a recovering handler may end that activation normally
+	for rf := fr; rf != nil; rf = rf.parent {
+		if rf.recovering {
+			rf.onRet(st.clone(), nil)
+			break
+		}
+	}
 	e.stmt(fr, st, ss[0], func(st *State) { e.stmts(fr, st, ss[1:], k) })
 }
 
@@ -863,7 +870,34 @@ func (e *Engine) stmt(fr *frame, st *State, s ast.Stmt, k func(st *State)) {
 	case *ast.RangeStmt:
 		e.rangeLoop(fr, st, "", s, k)
 	case *ast.DeferStmt:
-		k(st) // defer/recover is outside the subset; functions using it get trusted contracts
+		// Only the recovering form is in the subset: defer func() { if r := recover(); r != nil { ...may panic again... } }().
+		// From here on a fault inside this activation (or its callees) may be caught: the function then returns normally
+		// with the state it had when the faulting statement began (the VM reverts what a faulting callee did). The handler
+		// itself must be free of effects. Modelled by forking a "recovered return" before every later statement (stmts).
+		lit, ok := s.Call.Fun.(*ast.FuncLit)
+		if !ok || len(s.Call.Args) != 0 {
+			panic("defer of a named function is outside the verifier's subset")
+		}
+		recovers, effects := false, false
+		ast.Inspect(lit.Body, func(n ast.Node) bool {
+			if c, ok := n.(*ast.CallExpr); ok {
+				if id, ok := c.Fun.(*ast.Ident); ok && id.Name == "recover" {
+					recovers = true
+				}
+				if f, ok := calleeOf(fr.info, c).(*types.Func); ok && e.mayWrite(f, 0) {
+					effects = true
+				}
+			}
+			return true
+		})
+		if !recovers || effects {
+			panic("deferred function without recover() or with effects is outside the verifier's subset")
+		}
+		if fr.fn.Type().(*types.Signature).Results().Len() != 0 {
+			panic("defer/recover in a function with results is outside the verifier's subset")
+		}
+		fr.recovering = true
+		k(st)
 	case *ast.EmptyStmt:
 		k(st)
 	case *ast.ForStmt:
